@@ -245,6 +245,45 @@ def run(ctx):
         ctx.check("R25.3", f"{fi.key}::writes only through _save_to_disk", bool(uses) and not direct,
                   f"direct file effects: {[short(e.call) for e in direct]}", fi)
 
+    # temporary names must not be mistaken for sample files by the reader
+    from .c26 import tmp_vs_pattern
+    tmp_vs_pattern(ctx, "R25.3", m)
+    # random state: (re)written unconditionally (on the master) whenever the run does not resume from a marker
+    srs_calls = [(n, c) for n, c in find_nodes(cfg, lambda q: isinstance(q, ast.Call) and call_name(q) == "_save_random_state")]
+    key = f"{okl.key}::random state is rewritten whenever no committed iteration is resumed"
+    if len(srs_calls) != 1:
+        ctx.und("R25.1", key, f"{len(srs_calls)} call sites", okl)
+    else:
+        n_, c_ = srs_calls[0]
+        at = known_atoms(cfg, n_.id)
+        # reference point: the marker-existence test that selects the resume branch
+        sel = [t_ for t_ in cfg.nodes if t_.kind == "test" and "isfile(lfile)" in src(t_.ast)]
+        base = set()
+        if sel:
+            base = {(src(t), pol) for t, pol in known_atoms(cfg, sel[0].id)}
+        extra = [("" if pol else "not ") + src(t) for t, pol in at
+                 if (src(t), pol) not in base and not (src(t).startswith("_MPI_master(") and pol)
+                 and not (sel and src(t) == src(sel[0].ast) and not pol)]
+        if not sel:
+            extra = None
+        ctx.check("R25.1", key, (not extra) if extra is not None else None,
+                  f"the state file is kept under {extra}: a truncated or stale nifty_random_state left by an earlier crashed start is "
+                  "loaded by a later resume", okl, c_)
+    # the mean is the last file ResidualSampleList.save writes (a resumed iteration starts from the mean; samples are redrawn)
+    rsave = m.func(SL, "ResidualSampleList.save")
+    rcfg = cfg_of(rsave)
+    wr = [(n, c) for n, c in find_nodes(rcfg, lambda q: isinstance(q, ast.Call) and call_name(q) == "_save_to_disk")]
+    mean_w = [n for n, c in wr if "mean" in src(c.args[0])]
+    samp_w = [n for n, c in wr if "mean" not in src(c.args[0])]
+    key = f"{rsave.key}::mean file is written after all sample files"
+    if len(mean_w) != 1 or not samp_w:
+        ctx.und("R25.2", key, f"{len(mean_w)} mean / {len(samp_w)} sample writes", rsave)
+    else:
+        after = [s_ for s_ in samp_w if s_.id in rcfg.reachable_after(mean_w[0].id, include_exc=False)]
+        ctx.check("R25.2", key, not after, "sample files are written after the mean: under save_strategy='latest' a crash while they are "
+                  "written leaves the committed marker pointing at the new mean (resume restarts the iteration from the wrong mean)",
+                  rsave, mean_w[0].ast)
+
     # ---------------------------------------------------------------- R25.4
     ctx.rule("R25.4", "no in-place overwrite of committed data: the file names used for samples/mean depend on the "
                       "iteration index under every accepted save_strategy (otherwise iteration k+1 overwrites what the "
